@@ -163,7 +163,9 @@ def gen_tree(rng, kind='boss', layout='tree', allfib=False, decoy=False, photopl
     run2d = rng.choice(['26', '103', '104']) if sdss else rng.choice(['v5_7_0', 'v5_4_45', 'v5_10_0', 'test'])
     run1d = rng.choice(['', run2d]) if sdss else rng.choice([run2d, run2d, 'v5_7_2', 'rm1d'])
     tree = {'kind': kind, 'run2d': run2d, 'run1d': run1d, 'layout': layout, 'zbest': rng.random() < 0.85,
-            'photoplate': photoplate, 'platelist': bool(allfib and not sdss), 'plates': files, 'decoy': None}
+            'photoplate': photoplate, 'platelist': bool(allfib and not sdss), 'plates': files, 'decoy': None,
+            # per-file table heterogeneity (string widths, int16/32/64, float32/64, column order): seed or None
+            'tabvar': rng.getrandbits(16) if rng.random() < 0.75 else None}
     if decoy:
         # same plate-MJD files (so that every lookup succeeds) with other shapes and another id range
         # (a 'twin': requests may also be aimed at it, alternating with the main tree in one process); half of its
@@ -339,6 +341,10 @@ class C16(Check):
             'still satisfy the oracle; two trees with the same plate numbers and MJDs (other lengths, ids, partly the same '
             'COEFF0/COEFF1) are read alternately in one process; trees in which several plate-MJDs share COEFF0/COEFF1 but differ '
             'in pixel count, shorter first and shorter last, with >= 2 rows per file.  '
+            'Tables: in 3 of 4 trees string columns are only as wide as the longest value of that plate file, extra integer '
+            'columns are int16/32/64 and float columns float32/64 per file (wider files hold values the narrower type cannot '
+            'represent), column order differs per file; full values are compared (strings after stripping blank padding, numbers '
+            'exactly).  '
             'spec_append: every call readspec makes, plus direct calls and chains with shifts of both signs up to '
             'beyond the width, empty blocks, four dtypes.  Non-trivial (readspec): a request naming >= 3 distinct '
             'plate-MJD files in an order that is not file order; (spec_append): non-zero shift with unequal widths; '
@@ -363,7 +369,13 @@ class C16(Check):
                          'arrays_checked_unmodified', 'req_reused_array', 'req_reused_array_third_call',
                          'reused_fiber_array_i2', 'reused_fiber_array_i4', 'reused_fiber_array_i8', 'reused_fiber_array_u8',
                          'reused_plate_array_i4', 'reused_mjd_array_i4', 'req_twin_tree',
-                         'req_same_solution_shorter_later_multirow', 'req_same_solution_longer_later')
+                         'req_same_solution_shorter_later_multirow', 'req_same_solution_longer_later',
+                         # tables whose column types differ between the plate files of one request
+                         'tab_string_wider_than_first_file_plugmap', 'tab_string_wider_than_first_file_zans',
+                         'tab_string_wider_than_first_file_tsobj', 'tab_int_wider_than_first_file_plugmap',
+                         'tab_int_wider_than_first_file_zans', 'tab_int_wider_than_first_file_tsobj',
+                         'tab_float_wider_than_first_file_plugmap', 'tab_float_wider_than_first_file_zans',
+                         'tab_float_wider_than_first_file_tsobj', 'tab_column_order_differs')
 
     # ------------------------------------------------------------------ setup
     def setup(self):
@@ -573,6 +585,7 @@ class C16(Check):
     # -------------------------------------------------------------------- run
     def run(self, case, out):
         del self.append_log[:]
+        self._width = {}
         if case['kind'] == 'append':
             return self.run_append(case, out)
         root = tempfile.mkdtemp(prefix='case_', dir=self.workdir)
@@ -580,11 +593,13 @@ class C16(Check):
             t = case['tree']
             common = dict(run2d=t['run2d'], run1d=t['run1d'], layout=t['layout'], zbest=t['zbest'],
                           photoplate=t['photoplate'], platelist=t['platelist'])
-            desc = T.write_tree(os.path.join(root, 'main'), [tuple(p) for p in t['plates']], file_base=0, **common)
+            tv = t.get('tabvar')
+            desc = T.write_tree(os.path.join(root, 'main'), [tuple(p) for p in t['plates']], file_base=0,
+                                table_variation=tv, **common)
             decoy = None
             if t.get('decoy'):
                 decoy = T.write_tree(os.path.join(root, 'decoy'), [tuple(p) for p in t['decoy']],
-                                     file_base=DECOY_BASE, **common)
+                                     file_base=DECOY_BASE, table_variation=None if tv is None else tv + 1, **common)
             shared = {}        # request components materialised once and handed to several calls (key -> object)
             for qi, req in enumerate(case['requests']):
                 self.one_request(t, desc, decoy, req, qi, out, shared)
@@ -827,7 +842,12 @@ class C16(Check):
             tab = r[key]
             if not out.expect(isinstance(tab, dict), 'keys', '%s is not a dict of columns' % key, **ctx):
                 continue
-            for cname, kind in T.TABLE_COLUMNS[table]:
+            # the file read first (lowest plate-MJD key) fixes nothing: a later file may hold wider values
+            first = min(recs, key=lambda rc: (rc['plate'] << 16) + rc['mjd'])
+            varied = first.get('tab') is not None
+            if varied and len({tuple(rc['tab'][table]['order']) for rc in recs}) > 1:
+                out.count('tab_column_order_differs')
+            for cname, kind in T.table_columns(desc, table):
                 if not out.expect(cname in tab, 'keys', '%s lacks column %s' % (key, cname), **ctx):
                     continue
                 col = np.asarray(tab[cname])
@@ -835,8 +855,24 @@ class C16(Check):
                                   % (key, cname, col.shape, n), **ctx):
                     continue
                 exp = [T.table_cell(rc, table, cname, int(f)) for rc, f in zip(recs, fibs)]
+                if varied and kind in ('s', 'vi', 'vf'):
+                    later = [v for v, rc in zip(exp, recs) if rc is not first]
+                    if kind == 's':
+                        wkey = (first['index'], table, cname)
+                        if wkey not in self._width:
+                            self._width[wkey] = max(len(T.table_cell(first, table, cname, f))
+                                                    for f in range(1, first['nfiber'] + 1))
+                        if any(len(v) > self._width[wkey] for v in later):
+                            out.count('tab_string_wider_than_first_file_' + key)
+                    elif kind == 'vi':
+                        lim = {'i2': 2**15, 'i4': 2**31, 'i8': 2**63}[first['tab'][table]['fmt'][cname]]
+                        if any(v >= lim for v in later):
+                            out.count('tab_int_wider_than_first_file_' + key)
+                    elif first['tab'][table]['fmt'][cname] == 'f4' and any(float(np.float32(v)) != v for v in later):
+                        out.count('tab_float_wider_than_first_file_' + key)
                 if kind == 's':
-                    got = [str(x).strip() for x in col.tolist()]
+                    # full value: only the blank padding of the fixed-width FITS field is stripped
+                    got = [(x.decode('latin-1') if isinstance(x, bytes) else str(x)).rstrip(' ') for x in col.tolist()]
                     badrows = [i for i in range(n) if got[i] != exp[i]]
                 else:
                     exp = np.array(exp)
